@@ -92,6 +92,9 @@ CURATED = [
     "def p(a: Qint[2], b: Qint[2]) -> Qint[2]:\n\ta, b = b, a\n\treturn a - b",
     "def p(a: Qint[2]) -> Qint[2]:\n\tb = a + 1\n\tb = b + 1\n\treturn b",
     "def p(a: Qint[2]) -> bool:\n\tb = a == 2\n\tc = not b\n\tb = c and a[0]\n\treturn b",
+    "def p(a: Qint[2], c: bool) -> Qint[2]:\n\td = a\n\tif c:\n\t\tc = False\n\t\td = a + 1\n\treturn d",
+    "def p(a: Qint[2], first: bool) -> Qint[4]:\n\tif first:\n\t\tfirst = False\n\t\ta += 2\n\telse:\n\t\ta += 1\n\treturn a",
+    "def p(a: Qint[2], c: bool) -> Qint[2]:\n\told = a\n\tif c:\n\t\ta = a + 1\n\treturn a - old",
     # tuples, lists, builtins
     "def p(a: Tuple[Qint[2], bool]) -> Qint[2]:\n\treturn a[0] if a[1] else 0",
     "def p(a: Tuple[Qint[2], bool], b: Qint[2]) -> Tuple[bool, Qint[2]]:\n\treturn (a[1], a[0] + b)",
@@ -235,6 +238,77 @@ class Gen:
         return f"def p({args}) -> Qint[{rw}]:\n\treturn {self.int_expr(ivars, depth)}"
 
 
+    def stmt_program(self, idx):
+        """statement-level programs: assignments, augmented assignments, if/else whose bodies assign several variables (the condition
+        variable included), for loops over range / tuples, tuple swaps - the constructs ast2ast rewrites away"""
+        r = self.r
+        kind = "bool" if idx % 2 == 0 else "int"
+        if kind == "bool":
+            params = ["a: bool", "b: bool", "c: bool"][: r.choice((2, 3, 3))]
+            vs = [p.split(":")[0] for p in params]
+            ret = "bool"
+
+            def e(d=1):
+                return self.bool_expr(vs, d)
+
+            def cond():
+                return r.choice(vs) if r.random() < 0.6 else e(1)
+        else:
+            params = ["x: Qint[2]", "y: Qint[2]", "f: bool"]
+            vs = ["x", "y"]
+            ret = "Qint[4]"
+
+            def e(d=1):
+                return self.int_expr([("x", 2), ("y", 2)], d)
+
+            def cond():
+                return "f" if r.random() < 0.6 else self.int_cond([("x", 2), ("y", 2)], 1)
+        body = []
+        flags = ["f"] if kind == "int" else []
+
+        def assign(ind):
+            t = r.choice(vs)
+            if kind == "int" and r.random() < 0.4:
+                return f"{ind}{t} += {r.choice(('1', '2', r.choice(vs)))}"
+            if kind == "bool" and r.random() < 0.3:
+                return f"{ind}{t} = not {t}"
+            return f"{ind}{t} = {e(1)}"
+        for _ in range(r.choice((2, 3, 3, 4))):
+            k = r.random()
+            if k < 0.45:
+                c = cond()
+                then = [assign("\t\t") for _ in range(r.choice((1, 2, 3)))]
+                # the body may re-assign the very variable the test reads
+                names = [n for n in vs + flags if n == c]
+                if names and r.random() < 0.7:
+                    tgt = names[0]
+                    new = "False" if (kind == "bool" or tgt in flags) else e(1)
+                    then.insert(r.choice((0, 0, len(then))), f"\t\t{tgt} = {new}")
+                els = [assign("\t\t") for _ in range(r.choice((0, 1, 2)))]
+                body.append(f"\tif {c}:")
+                body += then
+                if els:
+                    body.append("\telse:")
+                    body += els
+            elif k < 0.6:
+                t = r.choice(vs)
+                n = r.choice((2, 3))
+                if kind == "int":
+                    body.append(f"\tfor i in range({n}):\n\t\t{t} += {r.choice(('i', '1', r.choice(vs)))}")
+                else:
+                    body.append(f"\tfor i in range({n}):\n\t\t{t} = {t} ^ {r.choice(vs)}")
+            elif k < 0.72 and len(vs) >= 2:
+                p, q = r.sample(vs, 2)
+                body.append(f"\t{p}, {q} = {q}, {p}")
+            elif k < 0.85:
+                body.append(f"\told = {r.choice(vs)}")
+                vs.append("old") if "old" not in vs else None
+            else:
+                body.append(assign("\t"))
+        rexp = e(1)
+        return f"def p({', '.join(params)}) -> {ret}:\n" + "\n".join(body) + f"\n\treturn {rexp}"
+
+
 def generated(tier, seed):
     g = Gen(seed * 7919 + 1)
     out = []
@@ -244,6 +318,9 @@ def generated(tier, seed):
         out.append(g.bool_program(nv, 2 + (i % 2), nret=1 if i % 5 else 2, nassign=(i % 3 == 0) * 1))
     for i in range(ni):
         out.append(g.int_program(1 + i % 2 + (tier == "thorough" and i % 7 == 0)))
+    g2 = Gen(seed * 104729 + 3)
+    for i in range(120 if tier == "quick" else 1500):
+        out.append(g2.stmt_program(i))
     return out
 
 
@@ -255,7 +332,7 @@ def profiles():
     return {"default": defaultOptimizer, "fast": fastOptimizer}
 
 
-class Budget(Exception):
+class Budget(BaseException):
     """an instance exceeded its time budget: it is skipped and counted, never a verdict"""
 
 
